@@ -539,16 +539,26 @@ def e_survey(rng, small=False, variant=None):
         (rng.randint(1, 3), rng.randint(0, 3), rng.randint(1, 3))
     if variant is not None:
         ns, nr, nf = 2, (0 if variant % 7 == 6 else 2), 3
-    srcs = [e_source(rng)[0] for _ in range(ns)]
-    recs = [e_receiver(rng)[0] for _ in range(nr)]
-    if small:
-        recs = [emg3d.RxElectricPoint((rng.randint(2, 12) / 2, rng.randint(2, 12) / 2, rng.randint(2, 12) / 2, 0, 0))
-                for _ in range(nr)]
+    if variant is not None:
+        # mixed types in an order whose auto-generated names are NOT alphabetical:
+        # TxED-1, TxMD-2, TxEW-3 (sorted: TxED-1, TxEW-3, TxMD-2); RxMP-1, RxEP-2 (sorted: RxEP-2, RxMP-1)
+        ns = 3
+        srcs = [e_source(rng, k, variant)[0] for k in ('TxElectricDipole', 'TxMagneticDipole', 'TxElectricWire')]
+        recs = [e_receiver(rng, k, variant)[0] for k in ('RxMagneticPoint', 'RxElectricPoint')][:nr]
+    else:
+        srcs = [e_source(rng)[0] for _ in range(ns)]
+        recs = [e_receiver(rng)[0] for _ in range(nr)]
     freqs = sorted({rng.randint(1, 80) / 8 for _ in range(nf)})
     nf = len(freqs)
     shape = (ns, nr, nf)
     npr = np.random.RandomState(rng.randint(0, 2 ** 31))
-    r = dict(shape=shape, src_as_dict=_pick(rng, [False, True, False], variant),
+    # user-defined names in a non-alphabetical order (dicts keep insertion order)
+    names = _pick(rng, ['auto', 'unsorted', 'auto', 'unsorted-all'], variant)
+    if names != 'auto':
+        freqs = dict(zip(['f-high', 'f-a', 'f-mid'][:nf], freqs))
+    if names == 'unsorted-all' and nr:
+        recs = dict(zip(['Rx-z', 'Rx-b', 'Rx-m'][:nr], recs))
+    r = dict(shape=shape, names=names, src_as_dict=_pick(rng, [False, True, False], variant),
              data=_pick(rng, ['observed', 'extra', 'none'], variant),
              nf=_pick(rng, ['none', 'scalar', 'array', 'bcast'], variant),
              re=_pick(rng, ['none', 'scalar', 'array', 'bcast'], variant, 1),
@@ -582,7 +592,8 @@ def e_survey(rng, small=False, variant=None):
     if r['meta']:
         kw.update(name=rng.choice(['survey A', 'x', '']), date=rng.choice(['2026-09-23', None]),
                   info=rng.choice(['some info', None]))
-    sources = {f"S{i}": s for i, s in enumerate(srcs)} if r['src_as_dict'] else srcs
+    sources = dict(zip(['Zulu', 'alpha', 'Mike', 'S3'], srcs)) if (r['src_as_dict'] or names == 'unsorted-all') \
+        else srcs
     s = emg3d.Survey(sources, recs if nr else None, freqs, data=data, **kw)
     if r['std'] and nr:
         s.standard_deviation = npr.randint(1, 64, shape) / 512
@@ -595,16 +606,17 @@ def e_sim_survey(rng, force_noise=False):
     c3 = lambda: [rng.randint(8, 24) / 4 for _ in range(3)]   # noqa: E731
     ang = lambda: [rng.randint(-180, 180) / 2, rng.randint(-90, 90) / 2]   # noqa: E731
     srcs = []
-    for _ in range(rng.randint(1, 2)):
-        k = rng.choice(['TxElectricPoint', 'TxElectricDipole', 'TxMagneticDipole', 'TxElectricWire'])
+    # two sources of different type, magnetic first: auto names TxMD-1, TxED-2 (not alphabetical)
+    for k in [rng.choice(['TxMagneticDipole', 'TxElectricWire']),
+              rng.choice(['TxElectricPoint', 'TxElectricDipole'])][:rng.choice([1, 2, 2])]:
         if k == 'TxElectricWire':
             srcs.append(emg3d.TxElectricWire(np.array([c3(), c3(), c3()]), strength=e_strength(rng) or 1.0))
         elif k == 'TxElectricPoint':
             srcs.append(emg3d.TxElectricPoint(tuple(c3() + ang()), strength=e_strength(rng) or 1.0))
         else:
             srcs.append(getattr(emg3d, k)(tuple(c3() + ang()), strength=e_strength(rng) or 1.0, length=0.5))
-    recs = [getattr(emg3d, rng.choice(['RxElectricPoint', 'RxMagneticPoint']))(tuple(c3() + ang()))
-            for _ in range(rng.randint(1, 2))]
+    recs = [getattr(emg3d, k)(tuple(c3() + ang()))
+            for k in ['RxMagneticPoint', 'RxElectricPoint'][:rng.choice([1, 2, 2])]]
     freqs = sorted({rng.randint(1, 80) / 8 for _ in range(rng.randint(1, 2))})
     shape = (len(srcs), len(recs), len(freqs))
     npr = np.random.RandomState(rng.randint(0, 2 ** 31))
@@ -706,7 +718,18 @@ def view(o, what=None):
             for k in ('synthetic', 'residual', 'weights'):
                 data.pop(k, None)
         std = o.standard_deviation
-        return {'sources': {k: view(v) for k, v in o.sources.items()},
+        labelled = {}
+        for name in o.data.data_vars:             # value AT (source, receiver, frequency) labels
+            da = o.data[name]
+            labelled[str(name)] = {f"{s}|{r}|{f}": np.asarray(da.loc[s, r, f].data)
+                                   for s in sorted(o.sources) for r in sorted(o.receivers)
+                                   for f in sorted(o.frequencies)}
+        if what == 'plain':
+            for k in ('synthetic', 'residual', 'weights'):
+                labelled.pop(k, None)
+        return {'labelled_data': labelled, 'source_order': list(o.sources),
+                'receiver_order': list(o.receivers), 'frequency_order': list(o.frequencies),
+                'sources': {k: view(v) for k, v in o.sources.items()},
                 'receivers': {k: view(v) for k, v in o.receivers.items()},
                 'frequencies': dict(o.frequencies), 'data': data,
                 'noise_floor': o.noise_floor, 'relative_error': o.relative_error,
@@ -738,6 +761,8 @@ def leaf_diff(a, b, path):
     """None if a and b are the same value (NaN-aware, dtype and shape of arrays)."""
     if a is None or b is None:
         return None if (a is None and b is None) else f"{path}: {a!r} vs {b!r}"
+    if isinstance(a, (list, tuple)) and all(isinstance(x, str) for x in a):
+        return None if list(a) == list(b) else f"{path}: {list(a)!r} vs {b!r}"
     if isinstance(a, str) or isinstance(b, str):
         return None if (isinstance(a, str) and isinstance(b, str) and a == b) else f"{path}: {a!r} vs {b!r}"
     if isinstance(a, (bool, np.bool_)) or isinstance(b, (bool, np.bool_)):
@@ -761,12 +786,17 @@ def leaf_diff(a, b, path):
     return None
 
 
-def tree_diff(a, b, path=''):
+def tree_diff(a, b, path='', root_unordered=False):
+    """First difference of two trees.  Key ORDER of every dict is part of the comparison (Python dicts
+    keep insertion order and e.g. Survey labels its data axes with it), except for the dict at
+    `path == ''` when `root_unordered` (the root group of an h5 file is name-ordered)."""
     if isinstance(a, dict) or isinstance(b, dict):
         if not (isinstance(a, dict) and isinstance(b, dict)):
             return f"{path}: {type(a).__name__} vs {type(b).__name__}"
         if set(a) != set(b):
             return f"{path}: keys only in original {sorted(set(a) - set(b))}, only in loaded {sorted(set(b) - set(a))}"
+        if list(a) != list(b) and not (root_unordered and path == ''):
+            return f"{path}: key order {list(a)} came back as {list(b)}"
         for k in a:
             d = tree_diff(a[k], b[k], f"{path}/{k}")
             if d:
@@ -842,7 +872,7 @@ def e2e_case(rng, kind, tmp, tag, convert_pairs=None, variant=None):
         if isinstance(obj, dict):
             for k in META:
                 loaded.pop(k, None)
-            d = tree_diff(tree_of(obj), tree_of(loaded))
+            d = tree_diff(tree_of(obj), tree_of(loaded), root_unordered='h5' in how)
             if not d:
                 # each known class instance must come back as that class
                 d = nested_types(obj, loaded)
@@ -1374,10 +1404,10 @@ def dict_rt_case(sub, tmp, tag, maxdepth):
         for how, o in ((f, out), (f"{f}->{g}", out2)):
             for k in META:
                 o.pop(k, None)
-            diff = tree_diff(d, o)
+            diff = tree_diff(d, o, root_unordered='h5' in how)
             if diff:
                 return {'signature': f"C17: dict round trip via {how}: {diff.split(':')[0]}",
-                        'dict': repr(d)[:1500], 'observed': diff, 'required': 'equal dict (values, dtype, shape)'}
+                        'dict': repr(d)[:1500], 'observed': diff, 'required': 'equal dict (values, dtype, shape, key order of nested dicts)'}
     return None
 
 
